@@ -82,6 +82,9 @@ Params(f) ==
                            thB |-> Pick({<<0, 1>>, <<5, 1>>}, {<<-5, 1>>}), gB |-> Pick({<<7, 5>>, <<5, 3>>}, {}),
                            pT |-> Pick({<<1, 2>>, <<3, 1>>}, {<<1, 1>>}), rT |-> Pick({<<1, 4>>, <<1, 1>>}, {}), MT |-> Pick({<<7, 1>>, <<3, 1>>}, {<<2, 1>>}),
                            thT |-> Pick({<<0, 1>>, <<-5, 1>>}, {<<10, 1>>}), gT |-> Pick({<<7, 5>>}, {<<5, 3>>})]
+    [] f = "RMTV" -> \* the tri-lab problem (a, b, gamma, xi_f, xi_s and its eigenvalue beta0 fixed); position of the heat front = time
+                     [rf |-> Pick({<<9, 10>>, <<1, 2>>}, {<<3, 10>>}), chi0 |-> Pick({<<1, 1>>, <<2, 1>>}, {}), g0 |-> Pick({<<1, 1>>}, {<<2, 1>>}),
+                      bigamma |-> Pick({<<1, 1>>, <<2, 1>>}, {})]
     [] f = "RadShock" -> \* Cv in units of the default 1.4472799784454e12 erg/(g eV)
                          [solver |-> Pick({"ED", "nED", "LM_nED"}, {"FLD_LP", "FLD_1", "FLD_2"}), M0 |-> Pick({<<6, 5>>, <<2, 1>>}, {<<21, 20>>, <<3, 1>>, <<5, 1>>}),
                           gamma |-> Pick({<<5, 3>>, <<7, 5>>}, {}), Cv |-> Pick({<<1, 1>>, <<1, 2>>}, {}), Tref |-> Pick({<<100, 1>>, <<200, 1>>}, {}),
@@ -129,7 +132,7 @@ TimesOf(f, p) ==
     [] f = "EPpiston" -> Pick({<<1, 50>>, <<1, 20>>}, {})
     [] f \in {"Kenamond1", "Kenamond2", "Kenamond3", "DSDcyl"} -> {<<1, 1>>}      \* burn-time fields do not depend on t
     [] f = "Blake" -> Pick({<<1, 20>>, <<1, 10>>}, {})
-    [] f \in {"RadShock", "Riemann2D"} -> {<<1, 1>>}
+    [] f \in {"RadShock", "Riemann2D", "RMTV"} -> {<<1, 1>>}
     [] f = "BBNoh" -> Pick({<<3, 5>>}, {<<3, 2>>})
     [] f = "RiemannJWL" -> Pick({<<12, 1>>}, {<<5, 1>>})
     [] f = "SDRZ" -> Pick({<<1, 2>>, <<2, 1>>, <<13, 5>>}, {<<1, 1>>})       \* before / after the end of the reaction (t = 1), 2.6 is not on the solver's time grid
